@@ -12,6 +12,7 @@ import (
 	"sync"
 	"strconv"
 	"fmt"
+	"math/rand"
 	"sort"
 	"strings"
 	"time"
@@ -1318,6 +1319,9 @@ func runResponseStream(c *Ctx, n int, focus string) {
 			runOneResponse(c, cs, &rc2, respOK2, profileFault)
 		}
 	}
+	if focus == "C01" || focus == "C02" || focus == "C04" {
+		runDowngradeCases(c, cs, c.N(24, 240))
+	}
 }
 
 func sp2(s string) *string { return &s }
@@ -1553,6 +1557,12 @@ func runOneResponse(c *Ctx, cs *CaseSet, rc *respCase, respSigOK bool, profileFa
 					c.Violate("spec", "flags:unsigned-response-unflagged-assertion", "Response flag false and an assertion not individually validated", replay)
 				}
 			}
+			if !resp.SignatureValidated && hasEnvelopedSignature(rc.raw) {
+				// C02: a signature that is PRESENT on the Response (a ds:Signature direct child of the presented root — generator side, the
+				// final XML) is either honoured (flag) or fatal; acceptance as "unsigned" means a present signature that does not verify
+				// for this root (edited ID, ID shadowed by a prefixed namesake, ...) was downgraded to a missing one
+				c.Violate("spec", "response:enveloped-signature-downgraded", "the presented Response root envelops a ds:Signature (direct child) but the message was accepted as an UNSIGNED Response (SignatureValidated=false): its own present signature, which does not verify for this root, was handled as missing", replay)
+			}
 			if !resp.SignatureValidated {
 				if n, ok := directAssertionChildren(rc.raw); ok && n != len(resp.Assertions) && !hasLabelPrefix(rc.labels, "encrypted-plaintext=") {
 					c.Violate("spec", "unsigned-response:assertion-dropped", fmt.Sprintf("unsigned Response accepted with %d assertion(s) returned although it carries %d Assertion / EncryptedAssertion children: not every assertion it carries was individually verified", len(resp.Assertions), n), replay)
@@ -1654,6 +1664,106 @@ func hasLabelPrefix(labels []string, p string) bool {
 		}
 	}
 	return false
+}
+
+// hasEnvelopedSignature: the root of the XML the harness presents has a direct child element {xmldsig}Signature.
+func hasEnvelopedSignature(raw []byte) bool {
+	d := etree.NewDocument()
+	if err := d.ReadFromBytes(raw); err != nil || d.Root() == nil {
+		return false
+	}
+	for _, ch := range d.Root().ChildElements() {
+		if ch.Tag == "Signature" && ch.NamespaceURI() == dsig.Namespace {
+			return true
+		}
+	}
+	return false
+}
+
+// editRootID: the attacker edits applied to a root that carries its own signature so that goxmldsig no longer finds a
+// signature REFERENCING the root (it answers ErrMissingSignature although the ds:Signature child is still there).
+//   "edit-response-id"            the value of the root's ID attribute is changed
+//   "prefixed-id-namesake-first"  xmlns:p="urn:p" p:ID="_other" inserted as the FIRST attributes: etree's SelectAttr("ID")
+//                                 matches on the local name and returns p:ID, the genuine ID attribute is untouched
+func editRootID(root *etree.Element, kind string) {
+	switch kind {
+	case "edit-response-id", "edit-id":
+		root.CreateAttr("ID", root.SelectAttrValue("ID", "")+"_edited")
+	case "prefixed-id-namesake-first":
+		root.Attr = append([]etree.Attr{{Space: "xmlns", Key: "p", Value: "urn:p"}, {Space: "p", Key: "ID", Value: "_other"}}, root.Attr...)
+	}
+}
+
+// runDowngradeCases: Responses that carry their OWN signature (mostly with individually signed assertions as well), then the
+// root-ID edits alone and combined with "tamper-response-attribute", plus two controls (the signature really removed:
+// legitimately unsigned; unedited).  Generated from a PRNG of its own (derived from the seed) so that the main stream's cases
+// are the same as before this sub-stream existed.
+func runDowngradeCases(c *Ctx, cs *CaseSet, n int) {
+	w := getWorld()
+	r := rand.New(rand.NewSource(c.Seed*1000003 + 541863))
+	for k := 0; k < n; k++ {
+		g := &xgen{r: r, now: baseNow.Add(time.Duration(r.Intn(100000)) * time.Second)}
+		store := []*KeyPair{w.IdP1}
+		if r.Intn(4) == 0 {
+			store = []*KeyPair{w.IdP2, w.IdP1}
+		}
+		sp := g.newSPFor(store, g.now)
+		rs := g.okResponseSpec(1 + r.Intn(2))
+		placement := 3
+		if k%5 == 4 {
+			placement = 1 // only the Response is signed: after the edit nothing vouches, rejected before and after the repair
+		}
+		doc := g.buildSigned(rs, placement, w.IdP1, nil)
+		raw, _ := doc.WriteToBytes()
+		rc := &respCase{sp: sp, store: store, now: g.now, rs: rs, genuine: true}
+		rc.labels = append(rc.labels, fmt.Sprintf("placement=%d", placement), "key="+w.IdP1.Name, "style="+rs.Style.PP+"/"+rs.Style.AP, "own-signature-stream")
+		d2 := etree.NewDocument()
+		if err := d2.ReadFromBytes(raw); err != nil || d2.Root() == nil {
+			continue
+		}
+		root := d2.Root()
+		broken := func() {
+			// the Response's own signature cannot verify for this root any more: nothing is covered by it
+			rs.SignedBy = nil
+			for _, a := range rs.Assertions {
+				a.CoveredByResp = false
+			}
+			rc.genuine = false
+		}
+		switch k % 6 {
+		case 0, 2:
+			editRootID(root, "edit-response-id")
+			rc.labels = append(rc.labels, "edit-response-id")
+			broken()
+		case 1, 3:
+			editRootID(root, "prefixed-id-namesake-first")
+			rc.labels = append(rc.labels, "prefixed-id-namesake-first")
+			broken()
+		case 4: // control: the root signature is REMOVED — a legitimately unsigned Response (accepted iff every assertion is signed)
+			for _, ch := range root.ChildElements() {
+				if ch.Tag == "Signature" {
+					root.RemoveChild(ch)
+				}
+			}
+			rc.labels = append(rc.labels, "strip-response-signature")
+			broken()
+		default: // control: unedited
+		}
+		if k%6 == 2 || k%6 == 3 || (k%6 == 4 && k%12 == 4) {
+			root.CreateAttr("InResponseTo", "_attacker_chosen")
+			rc.labels = append(rc.labels, "tamper-response-attribute")
+		}
+		raw, _ = d2.WriteToBytes()
+		rc.raw = raw
+		wire := raw
+		if r.Intn(4) == 0 {
+			wire = deflateBytes(raw, -1)
+			rc.labels = append(rc.labels, "deflated")
+		}
+		rc.wire = b64(wire)
+		respOK := computeTrust(rc)
+		runOneResponse(c, cs, rc, respOK, "")
+	}
 }
 
 // directAssertionChildren counts the Assertion and EncryptedAssertion direct children of the presented root.
